@@ -4,7 +4,8 @@ import os, subprocess, sys
 b = "/repo/_build"
 r = subprocess.run(["cmake", "-G", "Ninja", "-S", "/repo", "-B", b, "-DEXTRA_CFLAGS="])
 if r.returncode == 0:
-    r = subprocess.run(["cmake", "--build", b, "-j", str(os.cpu_count() or 8)])
+    # clean first: ninja does not track nasm %include dependencies, a stale object would hide a change in an .inc file
+    r = subprocess.run(["cmake", "--build", b, "--clean-first", "-j", str(os.cpu_count() or 8)])
 if r.returncode != 0:
     sys.exit(2)
 junit = os.environ.get("JUNIT_OUT", "/tmp/imbverif-baseline.junit.xml")
